@@ -237,16 +237,20 @@ Fixpoint path_cmp (a b : path) : comparison :=
       end
   end.
 
-Fixpoint insert_file (x : path * bytes) (l : tree) : tree :=
+(* insertion sort on a key (slices.Sort of the directory's names; the order is total, and
+   keys are distinct in the cases considered, so which sorting algorithm is irrelevant) *)
+Fixpoint insert_by {K A} (cmp : K -> K -> comparison) (x : K * A) (l : list (K * A)) : list (K * A) :=
   match l with
   | [] => [x]
-  | y :: r => match path_cmp (fst x) (fst y) with
-              | Gt => y :: insert_file x r
+  | y :: r => match cmp (fst x) (fst y) with
+              | Gt => y :: insert_by cmp x r
               | _ => x :: y :: r
               end
   end.
+Definition sort_by {K A} (cmp : K -> K -> comparison) (l : list (K * A)) : list (K * A) :=
+  fold_right (insert_by cmp) [] l.
 
-Definition walk_order (t : tree) : tree := fold_right insert_file [] t.
+Definition walk_order (t : tree) : tree := sort_by path_cmp t.
 
 (* How txtar-c names an entry.  filepath.Walk(dir) hands the walk function
    Join(...Join(Join(dir, e1), e2)..., en) for the file with elements e1..en below dir
@@ -265,12 +269,11 @@ Record sflags := { f_quote : bool; f_all : bool }.
 Definition dot_skipped (fl : sflags) (p : path) : bool :=
   negb (f_all fl) && existsb (has_prefix savedir_dot_prefix) p.
 
-(* the walk function on one regular file: None = not archived; otherwise the comment
-   line it contributes (if quoted) and its archive entry *)
-Definition savedir_entry (fl : sflags) (pd : path * bytes) : option (bytes * (bytes * bytes)) :=
+(* the walk function on one regular file that was not skipped for a dot name: None = not
+   archived; otherwise the comment line it contributes (if quoted) and its archive entry *)
+Definition file_entry (fl : sflags) (pd : path * bytes) : option (bytes * (bytes * bytes)) :=
   let '(p, d) := pd in
-  if dot_skipped fl p then None
-  else if negb (utf8_valid d) then None
+  if negb (utf8_valid d) then None
   else
     let d1 := fix_nl d in
     let name := join_sep p in
@@ -282,6 +285,10 @@ Definition savedir_entry (fl : sflags) (pd : path * bytes) : option (bytes * (by
         end
       else None
     else Some ([], (to_slash name, d1)).
+
+(* ... on any regular file of the tree *)
+Definition savedir_entry (fl : sflags) (pd : path * bytes) : option (bytes * (bytes * bytes)) :=
+  if dot_skipped fl (fst pd) then None else file_entry fl pd.
 
 Fixpoint filter_map {A B} (f : A -> option B) (l : list A) : list B :=
   match l with
@@ -295,6 +302,41 @@ Definition savedir (fl : sflags) (t : tree) : archive :=
 
 (* the bytes txtar-c prints *)
 Definition txtar_c (fl : sflags) (t : tree) : bytes := format (savedir fl t).
+
+(* The archived directory as a tree, and filepath.Walk on it, literally: the entries of
+   each directory are visited in byte order of their names (readDirNames sorts them); a
+   regular file is handed to the walk function; for a directory the walk function is
+   called first and then its entries are walked.  txtar-c's walk function answers SkipDir
+   for a directory, and simply returns for a file, whose own name has the dot prefix
+   (unless -a); the directory given on the command line is not tested.  [rwalk] returns
+   the regular files the walk function goes on to read, in the order of the calls.
+   (The sort is applied to the per-entry results, keyed by the entry's name, which is the
+   same as visiting the entries in sorted order and lets the recursion be structural.) *)
+Inductive rnode := RFile (d : bytes) | RDir (es : list (bytes * rnode)).
+Definition rtree := list (bytes * rnode).
+
+Definition skip_name (fl : sflags) (n : bytes) : bool :=
+  has_prefix savedir_dot_prefix n && negb (f_all fl).
+
+Fixpoint rwalk (fl : sflags) (p : path) (nd : rnode) {struct nd} : list (path * bytes) :=
+  match nd with
+  | RFile d => [(p, d)]
+  | RDir es =>
+      concat (map snd (sort_by bytes_cmp
+        (map (fun e => (fst e, if skip_name fl (fst e) then [] else rwalk fl (p ++ [fst e]) (snd e))) es)))
+  end.
+
+(* the same walk with nothing skipped: all regular files of the tree, in Walk's order *)
+Fixpoint rfiles (p : path) (nd : rnode) {struct nd} : list (path * bytes) :=
+  match nd with
+  | RFile d => [(p, d)]
+  | RDir es =>
+      concat (map snd (sort_by bytes_cmp (map (fun e => (fst e, rfiles (p ++ [fst e]) (snd e))) es)))
+  end.
+
+Definition savedir_tree (fl : sflags) (rt : rtree) : archive :=
+  let es := filter_map (file_entry fl) (rwalk fl [] (RDir rt)) in
+  {| comment := concat (map fst es); files := map snd es |}.
 
 (* what the comment of such an archive asks for: the names on "unquote NAME" lines *)
 Definition unquote_line (l : bytes) : option bytes :=
